@@ -647,9 +647,19 @@ func genPartial(r *Rng) *partialCase {
 		k := r.Intn(len(c.Fields))
 		c.Fields[k].Name, c.Fields[k].Ty = "_", r.Intn(2)
 	}
+	if len(c.Fields) >= 2 && r.Chance(15) {
+		// two fields whose names differ in letter case only (ID / Id, as json-derived structs have them)
+		c.Fields[0].Name, c.Fields[1].Name = "ID", "Id"
+	}
 	for _, f := range c.Fields {
 		if r.Chance(25) && f.Name != "_" {
 			c.Omit = append(c.Omit, f.Name)
+		}
+	}
+	if r.Chance(12) {
+		// an omit name in another spelling than the field's (the json spelling, say): it names no field of the origin
+		if k := r.Intn(len(c.Fields)); c.Fields[k].Name != "_" && !c.omitted(c.Fields[k].Name) && !c.omitted(strings.ToLower(c.Fields[k].Name)) {
+			c.Omit = append(c.Omit, strings.ToLower(c.Fields[k].Name))
 		}
 	}
 	c.WithDC = r.Chance(30)
